@@ -2,38 +2,120 @@
 
 (M)  Lda.tla: exact model of the label <-> row bookkeeping of LDA()/LDAPrediction() and of priors / class means as exact
      rationals, model-checked over all label vectors of length <= 6 (quick) / <= 7 (thorough) over <= 3 classes, both
-     numberings, balanced and unbalanced.  The model is also run with the pinned tree's mapping (LabelMap = "plus_pos"):
-     TLC shows a predicted label outside the training labels and a negative table index for every 1-based label vector.
+     numberings, balanced and unbalanced, plus mirror-symmetric data sets (exact score ties).  The model is also run with
+     the pinned tree's mapping (LabelMap = "plus_pos"): TLC shows a predicted label outside the training labels and a
+     negative table index for every 1-based label vector.
+     Round 3: the discriminant itself is modelled exactly for one / two features (integer sign Sgn of f_k - f_l for equally
+     large classes, rows no equally large class beats = AdmRows) and the invariance clauses of the statement are THEOREMS
+     TLC checks in exact arithmetic on every enumerated case: Sgn is multiplied by det(A)^2 under x -> Ax + b on training
+     and test data alike (12 integer maps: shear, swap, reflection, scales 2 and 3, shifts), unchanged under reordering of
+     the training objects and under renumbering of the classes; differences are antisymmetric and additive, some row is
+     never beaten, mirror data tie exactly at the centre; confusion counts (LDAError) partition the objects.
 (C)  replay: every label vector TLC enumerated comes with small integer feature data (InQuantifier: total and pooled
-     within-class covariance non-singular); c08_drv fits and predicts each one in a child process and records what the
-     library stored and returned; TLC validates the recording against TraceLda.tla (priors and means against the exact
-     rationals, prediction = a training label whose row maximises the STORED score row, ROC of perfect predictions).
+     within-class covariance non-singular) and two extra test points; c08_drv fits and predicts each one in a child process
+     and records what the library stored and returned; TLC validates the recording against TraceLda.tla (priors and means
+     against the exact rationals, prediction = a training label whose row maximises the STORED score row AND is a row no
+     equally large class beats in exact arithmetic).  A stratified part of the cases is replayed once more under the
+     RECODING TLC assigned to it (offsets 1e3..1e6, units 2^-20..2^20, grids 1/10 and 1/3: classes K3, K4, K5) while TLC
+     keeps judging on the integer coordinates - licensed by the theorems above.
      validate (ledger): seeded Gaussian classes (2..5 classes, 2..6 features, 4..40 objects per class, balanced/unbalanced,
      labels from 0/1, centres >= 8 sigma apart): zero errors, score = documented discriminant, invariance of score
-     differences under affine maps with cond <= 100 and under row permutations, AUC = 1 for perfect predictions.
+     differences under affine maps with cond <= 100 and under row permutations, AUC = 1 for perfect predictions - for the
+     base generator and for the stratified families of INPUT-CLASSES.md inside the quantifier (see CLASS AUDIT below).
 (V)  the label mapping the code implements is inferred from the recording and reported with the real witness.
+
+CLAUSE AUDIT (statement of C08 -> what decides it -> event that carries it)
+  "every labelled data set with a non-singular pooled covariance"   TCase: WellFormed, ExactCaseOk (NonSingular, rc in RecodeSet) /
+                                                                     LedgerCaseOk (2..5 classes, 2..6 features, 4..40 per class,
+                                                                     offset <= 1e6 spreads, unit 2^-20..2^20); Pair.kf <= KfMax     Case, Pair
+  "numbered from 0 or from 1"                                       TLabels (class_start, nclass, class sizes); model: StartSgn,
+                                                                     RowLabelBijection, PredictionIsALabel, TableIndexInRange       Labels
+  "stores class priors equal to the class frequencies"              TPrior: REq(num/den, Count/Len) recomputed by TLC                Prior
+  "(summing to 1)"                                                  TPriorSum (and the length of pprob); model: PriorsSumToOne       PriorSum
+  "class means equal to the per-class averages"                     TMu: REq with Mu(lab, X) recomputed by TLC (exact; tolerance
+                                                                     TolMuExact(rc) grows with the offset); TMuL (ledger, TolAlg,
+                                                                     relative to the data's unit); model: MeansGiveGrandMean,
+                                                                     MeanEquivariant                                                 Mu, MuL
+  "prediction returns, for each object"                             TEndPred: rows = n = number of Pred events = nt                  Pred, EndPred
+  "a label that occurs in the training labels"                      PropPred: label in Range(lab)                                    Pred
+  "and maximises the stored discriminant score"                     PropPred: row in ArgmaxSet(stored codes) (ties: any maximiser;
+                                                                     first maximiser = Impl layer); PropPredExact: row in AdmRowsG
+                                                                     (exact discriminant, margin RecodeMargin(rc)); TDisc: stored
+                                                                     score = mu'Cx - mu'Cmu/2 + ln prior of the stored model;
+                                                                     TReuse: whatever the outputs held / however they were sized    Pred, Disc, Reuse
+  "well-separated classes are classified without error"             TEndPred: sep = 1 => errs = 0 (errs counted by TLC)              Pred, EndPred
+  "score differences ... unchanged by any invertible affine map"    TPair kind affine (maps dense / diag / recentre): err <= TolPair
+                                                                     or PairPerKf * kf; blocks with an offset: TPairRow, every class
+                                                                     pair of every object against PairRel9(kf) * max(1,|D|) +
+                                                                     ShiftAbs9(d, shift); model: AffineSgn                           Pair, PairRow
+  "and hence predictions"                                           TPair: same = 1                                                  Pair
+  "and by any reordering of the training objects"                   TPair kind perm (+ TPairRow); THist (the identity reordering:
+                                                                     the same data fitted again later in the same process); model:
+                                                                     PermSgn                                                         Pair, PairRow, Hist
+  "per-class ROC summaries ... (numbered from 0)"                   TAucEnd: ClassStart = 0, one summary per class (K >= 3: count =
+                                                                     K; K = 2: 1 or 2)                                               AucEnd
+  "give AUC = 1 for perfect predictions"                            TAuc: |AUC - 1| <= TolExact, for src "labels" (training labels
+                                                                     twice) and src "pred" (truth vs what LDAPrediction returned,
+                                                                     premise errs = 0 counted by TLC)                                Auc
+  outside the statement, modelled all the same (EXTRA-FINDING):     TPFeat (projected features), TFTab (feature tables fmean / fsdev:
+                                                                     row k = class of label k + start), TMnPdf (density output read
+                                                                     at the table row of the predicted label), TErr / TErrEnd
+                                                                     (LDAError against Confusion() of Lda.tla), TRefit (LDA() into a
+                                                                     used model)                                                     PFeat, FTab, MnPdf, Err, ErrEnd, Refit
+  Impl layer (SPEC-DRIFT only):                                     ImplPred (first maximiser wins), ImplDisc (the stored inverse
+                                                                     inverts the n_k/n-weighted pooled within-class covariance),
+                                                                     TAucEnd (two classes: one curve; one ROC table / PR area each)  Pred, Disc, AucEnd
+
+CLASS AUDIT (INPUT-CLASSES.md; measured in coverage.classes)         before round 3                    now
+  K1 shapes      n_k = d+1, n-K = d, single test object             by chance / never                 families k1-*
+  K2 blocks      class sizes 4k, 4k+-1, 32, 32+-1, n = 64, 64+-1     by chance, untagged               family k2-block
+  K3 offsets     common offset 1e3..1e6 spreads                     never (<= 30 spreads)             k3-offset + exact recodings
+  K4 magnitude   units 2^-20 .. 2^20                                only in pair runs (1e-3..1e4)     k4-unit + exact recodings
+  K5 grids       values k/10, k/3                                   never                             k5-grid + exact recodings
+  K6 nproc       2, 3, 5, 16                                        never (forced 1)                  k6-nproc (no MT kernel is reached on this tree)
+  K7 histories   outputs of other size, model reused, A,B,A',A      same-size reuse only              Reuse var 0..3, k7-hist (two passes in one process)
+  K8 degenerate  exact score ties, duplicate rows                   never                             mirror cases of Lda.tla, k8-dup
+  K9 MISSING     -                                                  -                                 excluded: the statement does not mention missing values
+  K10 labels     1-based, unsorted, first object in last class,     all label vectors <= 7 (exact);   k10-* (non-increasing, first-in-last,
+                 non-increasing, 4 vs 40, 5 x 6                     shuffled (ledger)                  4 vs 40, 5 x 6), tagged
 """
 import json, os, shutil
+from concurrent.futures import ThreadPoolExecutor
 from vf import build, tlc, trace
 from vf import run as hrun
 from vf.core import InfraError
 
 LEVEL = "exploration"
 READY = True
-TECHNIQUE = ("TLC model checking of Lda.tla (label/row bookkeeping, exact rational priors and class means over all small label vectors) "
-             "+ replay of every TLC-enumerated case and of seeded separable data sets into the real LDA/LDAPrediction/LDAMulticlassStatistics "
-             "(each fit in a child process), the recording validated by TLC against TraceLda.tla")
-LEVEL_TEXT = ("The label bookkeeping and the exact priors/means are model-checked and replayed exhaustively for all label vectors within the stated bounds; "
-              "the discriminant, separability and invariance parts are sampled (seeded data sets) and each recorded model is trace-validated by TLC, "
-              "so the claim as a whole is exploration.")
+TECHNIQUE = ("TLC model checking of Lda.tla (label/row bookkeeping, exact rational priors and class means, the exact discriminant of one / two "
+             "features with the affine / permutation / renumbering invariance clauses as theorems over all small label vectors and mirror-symmetric "
+             "tie cases) + replay of every TLC-enumerated case (also under the offset / unit / grid recoding TLC assigns) and of seeded separable data "
+             "sets of every input class inside the quantifier into the real LDA/LDAPrediction/LDAMulticlassStatistics/LDAError (each fit in a child "
+             "process, histories of several fits in one process), the recording validated by TLC against TraceLda.tla")
+LEVEL_TEXT = ("The label bookkeeping, the exact priors/means and the exact arg-max rows are model-checked and replayed exhaustively for all label vectors "
+              "within the stated bounds; the floating-point discriminant, separability and invariance parts are sampled (seeded data sets, stratified over "
+              "the input classes K1-K8 and K10) and each recorded model is trace-validated by TLC, so the claim as a whole is exploration.")
 LEVEL_NOTE = ("Trusts TLC, the harness's double-precision evaluation of residuals (score vs documented discriminant, score-difference deviations, "
               "class averages of real-valued data), its order-preserving encoding of the stored scores, ASan/UBSan as memory monitor. "
               "Invariance bound: 1e-7 relative, relaxed to 1e-8 per unit Frobenius condition number of the covariance LDA() inverts; "
-              "cases with condition number > 1e5 are dropped and counted.")
+              "cases with condition number > 1e5 are dropped and counted. Blocks with a common offset of r >= 1000 spreads are judged pair by pair "
+              "against that bound times max(1,|D|) plus ShiftC * u * d * r^2 (u = 1.1e-16, ShiftC = 32; worst observed 6.5), the rounding error of a "
+              "difference of two scores whose terms are r^2 large; their dense random maps are kept nearly isotropic (condition <= 2) because a map of "
+              "condition kappa turns the offset into r * kappa spreads of the narrowest direction. Recoded exact cases accept any row that no equally "
+              "large class beats by one discriminant unit (RecodeMargin). Classes left out because the quantifier / statement excludes them: K9 (the "
+              "statement does not mention missing values; cells within 1 of the MISSING code 99999999 are never generated), wide shapes (n - K < d makes "
+              "the pooled covariance singular), constant / duplicate columns (singular), non-contiguous labels and empty classes (numbering starts at 0 "
+              "or 1 and every class occurs), per-feature unit systems 2^-20..2^20 inside ONE map (condition > 100; per-feature units up to condition 100 "
+              "are there), imperfect predictions for the ROC clause (the tie order of equal scores is implementation-defined). K6 is emitted although "
+              "LDA / LDAPrediction / LDAMulticlassStatistics reach no MT_* kernel on this tree. Projected features, feature tables, the density output, LDAError and "
+              "LDA() into a used model object are outside the statement: EXTRA-FINDING only (candidate repairs: fixes/C08-lda-refit-used-model.diff, "
+              "fixes/C08-ldaprediction-pfeatures-reset.diff).")
 
 KFMAX = 100000
 SEP = 16.0          # lattice spacing of the class centres in sigma; after jitter the centres are >= 12 sigma apart
 WORKERS = int(os.environ.get("VERIF_WORKERS", "6"))
+EXTRA_KINDS = ("PFeat", "Err", "ErrEnd", "Refit", "FTab", "MnPdf")
+EXTRA_STAGES = ("refit", "lderr")
 
 
 def _ctxmap(events):
@@ -46,13 +128,25 @@ def _ctxmap(events):
     return m
 
 
+def _is_extra(e):
+    return e["e"] in EXTRA_KINDS or (e["e"] == "Crash" and e.get("stage") in EXTRA_STAGES)
+
+
 def _sig(e, cm):
     """(signature, what) of a rejected event; the verdict is TLC's, this only names it"""
     start, labs, case = cm.get(id(e), (0, frozenset(), None))
     s = "start%d" % start
     k = e["e"]
-    cid = "case %s (%s, K=%s d=%s n=%s)" % (case.get("id"), case.get("mode"), case.get("K"), case.get("d"), len(case.get("lab", []))) if case else "?"
+    cid = "case %s (%s/%s, K=%s d=%s n=%s)" % (case.get("id"), case.get("mode"), case.get("fam"), case.get("K"), case.get("d"), len(case.get("lab", []))) if case else "?"
+    if case and case.get("mode") == "exact" and case.get("rc", {}) != {"off": 0, "mul": 1, "den": 1}:
+        cid += " recoded %s" % json.dumps(case["rc"])
+    if case and (case.get("shift") or case.get("unit")):
+        cid += " offset %s spreads, unit 2^%s" % (case.get("shift"), case.get("unit"))
     if k == "Crash":
+        if e.get("stage") == "refit":
+            return "LDA:history:refit-into-used-model", "%s: LDA() into the LDAMODEL that already holds a fit dies (rc=%s)" % (cid, e.get("rc"))
+        if e.get("stage") == "lderr":
+            return "LDA:lderror:crash", "%s: LDAError dies (rc=%s)" % (cid, e.get("rc"))
         if e.get("stage") == "predict":
             return "LDA:labelmap:%s" % s, "%s: LDAPrediction died (rc=%s) - out-of-range table index for the predicted label" % (cid, e.get("rc"))
         return "LDA:crash-%s:%s" % (e.get("stage"), s), "%s: library call '%s' died (rc=%s)" % (cid, e.get("stage"), e.get("rc"))
@@ -67,6 +161,11 @@ def _sig(e, cm):
         if lab not in labs or (start == 1 and lab == am - 1 and lab != am + start):
             return "LDA:labelmap:%s" % s, ("%s: object %d predicted as label %s while score row %d (label %d) is the maximum; training labels are %s"
                                           % (cid, e["i"], lab, am, am + start, sorted(labs)))
+        if case and len(e["sc"]) != case.get("K"):
+            return "LDA:argmax:%s" % s, "%s: object %d: the stored score row has %d entries for %s classes" % (cid, e["i"], len(e["sc"]), case.get("K"))
+        if e["fin"] == 1 and lab - start == am and case and case.get("mode") == "exact":
+            return "LDA:argmax:%s" % s, ("%s: object %d predicted as label %s, which does maximise the stored score row, but in exact arithmetic an equally large class has a "
+                                         "larger discriminant there: the stored scores are not the LDA discriminant of this data" % (cid, e["i"], lab))
         return "LDA:argmax:%s" % s, "%s: object %d predicted as label %s which does not maximise the stored score row (arg-max row %d, finite=%s)" % (cid, e["i"], lab, am, e["fin"])
     if k == "Disc":
         return "LDA:argmax:%s" % s, "%s: stored score differs from mu'Cx - mu'Cmu/2 + ln(prior) of the stored model by %.3g relative" % (cid, e["err"] * 1e-12)
@@ -75,36 +174,54 @@ def _sig(e, cm):
             return "LDA:argmax:%s" % s, "%s: %s objects submitted, prediction has %s rows" % (cid, e.get("n"), e.get("rows"))
         return "LDA:separable:%s" % s, "%s: well separated classes (centres >= 8 sigma apart) are not classified without error" % cid
     if k == "Reuse":
-        return "LDA:argmax:%s" % s, ("%s: a second LDAPrediction call into already sized, non-zero output matrices differs from a call with fresh outputs "
-                                     "(scores by %s relative, labels identical: %s, rows %s/%s)" % (cid, ">= 0.002" if e["err"] >= 2000000000 else "%.3g" % (e["err"] * 1e-12), e["same"], e["rows"], e["n"]))
+        how = {0: "already sized, non-zero", 1: "larger, non-zero", 2: "smaller (1 x 1)", 3: "already sized, after another test set was predicted into them"}.get(e.get("var"), "?")
+        return "LDA:argmax:%s" % s, ("%s: another LDAPrediction call of the same model into output matrices that are %s differs from the call with fresh outputs "
+                                     "(scores by %s relative, labels identical: %s, rows %s/%s)" % (cid, how, ">= 0.002" if e["err"] >= 2000000000 else "%.3g" % (e["err"] * 1e-12), e["same"], e["rows"], e["n"]))
     if k == "Pair":
         return "LDA:%s:%s" % (e["kind"], s), ("%s: score differences change by %s relative under %s%s (cond %.1f, scale %.3g, covariance condition %s), predictions identical: %s"
                                              % (cid, ">= 0.002" if e["err"] >= 2000000000 else "%.3g" % (e["err"] * 1e-12), e["kind"], " (%s map)" % e["map"] if "map" in e else "", e.get("cond", 0) / 1000.0, e.get("scale", 0) / 1000.0, e.get("kf"), e["same"]))
+    if k == "PairRow":
+        if not e["e9"] or len(e["e9"]) != len(e["m"]):
+            return "LDA:%s:%s" % (e["kind"], s), "%s: object %d: %d score differences recorded for %s classes" % (cid, e["i"], len(e["e9"]), case.get("K") if case else "?")
+        w = max(range(len(e["e9"])), key=lambda p: e["e9"][p] / float(max(1, e["m"][p])))
+        return "LDA:%s:%s" % (e["kind"], s), ("%s: object %d: a score difference of size ~%d changes by %.3g under %s (%s map), beyond the bound for an offset of %s spreads"
+                                             % (cid, e["i"], e["m"][w], e["e9"][w] * 1e-9, e["kind"], e["map"], case.get("shift") if case else "?"))
+    if k == "Hist":
+        return "LDA:perm:%s" % s, ("%s: the same data fitted and predicted once more after other models were fitted, used and freed in the same process gives other "
+                                   "scores (by %s relative; labels identical: %s, rows %s/%s) - the identity reordering of the training objects"
+                                   % (cid, ">= 0.002" if e["err"] >= 2000000000 else "%.3g" % (e["err"] * 1e-12), e["same"], e["rows"], e["n"]))
     if k in ("Auc", "AucEnd"):
-        return "LDA:auc:%s" % s, "%s: LDAMulticlassStatistics on perfect predictions: %s (AUC must be 1 for every class)" % (cid, e)
+        return "LDA:auc:%s" % s, "%s: LDAMulticlassStatistics on perfect predictions: %s (one summary per class, AUC must be 1 for every class)" % (cid, e)
+    if k == "PFeat":
+        return "LDA:pfeatures", ("%s: LDAPrediction's projected features are %s x %s for %s objects and %s eigenvectors (deviation from objects x eigenvectors %s)%s"
+                                 % (cid, e["rows"], e["cols"], e["n"], e["d"], ">= 0.002" if e["err"] >= 2000000000 else "%.3g" % (e["err"] * 1e-12),
+                                    " - the output was not empty: columns are appended to what it held" if e.get("var") else ""))
+    if k in ("Err", "ErrEnd"):
+        return "LDA:lderror", "%s: LDAError %s does not agree with the confusion counts of the recorded predictions" % (cid, e)
+    if k == "FTab":
+        return "LDA:featuretable", "%s: row %s of the stored feature tables (fmean / fsdev, %s x %s for %s eigenvectors) is not the mean / sdev of the projected training objects of that class: %s" % (cid, e["k"], e["rows"], e["cols"], e["ne"], e)
+    if k == "MnPdf":
+        return "LDA:mnpdf", "%s: the density output (%s x %s for %s objects, %s eigenvectors) is not the normal density under the table row of the predicted label (deviation %s)" % (
+            cid, e["rows"], e["cols"], e["n"], e["ne"], ">= 0.002" if e["err"] >= 2000000000 else "%.3g" % (e["err"] * 1e-12))
+    if k == "Refit":
+        return "LDA:history:refit-into-used-model", ("%s: LDA() into the LDAMODEL that already holds a fit: pprob has %s entries and mu %s rows for %s classes, predictions equal to a "
+                                                    "fresh model's: %s" % (cid, e["psize"], e["murows"], e["K"], e["same"]))
     return "LDA:trace:%s" % k, "unexpected event %s" % e
 
 
-def _block_of(events, ev):
-    """the Reset-delimited block containing ev (for the replay artefact)"""
-    idx = next(i for i, e in enumerate(events) if e is ev)
-    lo = idx
-    while lo > 0 and events[lo]["e"] != "Reset":
-        lo -= 1
-    hi = idx + 1
-    while hi < len(events) and events[hi]["e"] != "Reset":
-        hi += 1
-    return events[lo:hi]
+def _exact_line(i, c, rc):
+    T = c.get("T", [])
+    return "%d %d %d %d %d %d %d %s %s %s\n" % (i, len(c["lab"]), len(c["X"][0]), len(T), rc["off"], rc["mul"], rc["den"], " ".join(map(str, c["lab"])),
+                                               " ".join(str(v) for row in c["X"] for v in row), " ".join(str(v) for row in T for v in row))
 
 
-def _case_line(i, c):
-    return "%d %d %d %s %s\n" % (i, len(c["lab"]), len(c["X"][0]), " ".join(map(str, c["lab"])), " ".join(str(v) for row in c["X"] for v in row))
-
-
-def _run_harness(exe, jobs, what):
+def _run_harness(exe, jobs, what, asan_extra=""):
     # no stack traces for UBSan reports: on the pinned tree every 1-based case dies in a child, and symbolising thousands of
     # reports dominates the run time; file:line of the report is kept
-    res = hrun.run_many(exe, jobs, timeout=1500, workers=WORKERS, env={"UBSAN_OPTIONS": "print_stacktrace=0:halt_on_error=1:exitcode=98"})
+    env = {"UBSAN_OPTIONS": "print_stacktrace=0:halt_on_error=1:exitcode=98"}
+    if asan_extra:
+        env["ASAN_OPTIONS"] = hrun.SAN_ENV["ASAN_OPTIONS"] + ":" + asan_extra
+    res = hrun.run_many(exe, jobs, timeout=1500, workers=WORKERS, env=env)
     events, errs = [], []
     for j, h in zip(jobs, res):
         ev = hrun.read_ndjson(j[0])
@@ -118,21 +235,30 @@ def _run_harness(exe, jobs, what):
     return events, "\n".join(errs)
 
 
-def _validate(ctx, events, san_text, label, replay_of):
-    """account, drop out-of-quantifier pairs, TLC-validate with the alarm discipline"""
+def _validate(ctx, events, san_text, label, replay_of, chunks=1):
+    """account, drop out-of-quantifier pairs, TLC-validate with the alarm discipline.
+    The recording is split in two streams: the MAIN one (everything the statement of C08 covers; rejections are violations, the Impl layer
+    applies) and the EXTRA one (projected features, LDAError, refit - with the Case / Pred events they refer to; rejections are
+    EXTRA-FINDINGs).  Blocks are independent (each starts from Reset), so the main stream is validated in `chunks` parts side by side."""
     if not events:
         raise InfraError("c08 harness produced no events (%s)" % label)
     cm = _ctxmap(events)
     nblocks = sum(1 for e in events if e["e"] == "Reset")
-    dropped = [e for e in events if e["e"] == "Pair" and e.get("kf", 0) > KFMAX]
-    if dropped:
+    dropped = [e for e in events if e["e"] in ("Pair", "PairRow") and e.get("kf", 0) > KFMAX]
+    npairs = sum(1 for e in dropped if e["e"] == "Pair")
+    if npairs:
         ctx.note("%s: %d of %d invariance pairs have a numerically singular covariance (condition > %d): outside the quantifier, dropped"
-                 % (label, len(dropped), sum(1 for e in events if e["e"] == "Pair"), KFMAX))
+                 % (label, npairs, sum(1 for e in events if e["e"] == "Pair"), KFMAX))
         ctx.steps.setdefault("dropped_pairs", 0)
-        ctx.steps["dropped_pairs"] += len(dropped)
+        ctx.steps["dropped_pairs"] += npairs
     dset = set(id(e) for e in dropped)
     ev = [e for e in events if id(e) not in dset]
     sanlines = [l for l in san_text.splitlines() if "SUMMARY:" in l or "runtime error:" in l]
+    main = [e for e in ev if not _is_extra(e)]
+    extra = []
+    for blk in tlc.split_blocks(ev):
+        if any(_is_extra(e) for e in blk):
+            extra += [e for e in blk if e["e"] in ("Reset", "Case", "Pred") or _is_extra(e)]
 
     def on_reject(e, idx, block):
         if e["e"] == "Case":
@@ -143,139 +269,502 @@ def _validate(ctx, events, san_text, label, replay_of):
         case = cm[id(e)][2]
         ctx.violation(sig, what, replay_of(case, e))
         return lambda x: x["e"] != "Case" and x["e"] != "Reset" and _sig(x, cm)[0] == sig and _bad_like(x, e, cm)
-    rej = trace.check_trace(ctx, "TraceLda", "Trace_Lda.cfg", "Trace_Lda_prop.cfg", ev, on_reject, drop="event", label=label, max_rounds=16)
+
+    def on_reject_extra(e, idx, block):
+        if not _is_extra(e):
+            return lambda x: x is e             # judged in the main stream
+        sig, what = _sig(e, cm)
+        if e["e"] == "Crash" and sanlines:
+            what += " [" + sanlines[0].strip()[:200] + "]"
+        # routines / behaviour the statement of C08 does not cover: reported, never a verdict
+        ctx.extra(sig, what)
+        return lambda x: _is_extra(x) and _sig(x, cm)[0] == sig and _bad_like(x, e, cm)
+    blocks = tlc.split_blocks(main)
+    chunks = max(1, min(chunks, len(blocks)))
+    per = (len(blocks) + chunks - 1) // chunks
+    parts = [[e for b in blocks[i:i + per] for e in b] for i in range(0, len(blocks), per)]
+    jobs = [(part, on_reject, "%s%s" % (label, "" if len(parts) == 1 else "_%d" % i), "Trace_Lda.cfg") for i, part in enumerate(parts)]
+    if extra:
+        jobs.append((extra, on_reject_extra, label + "_extra", "Trace_Lda_prop.cfg"))
+    with ThreadPoolExecutor(len(jobs)) as ex:
+        rej = list(ex.map(lambda j: trace.check_trace(ctx, "TraceLda", j[3], "Trace_Lda_prop.cfg", j[0], j[1], drop="event", label=j[2], max_rounds=16), jobs))
     ctx.traces(nblocks)
-    return rej
+    return sum(rej)
 
 
 def _bad_like(x, e, cm):
     """events that would be rejected for the same reason as e (dropped together so that the rest of the trace is examined)"""
-    if x["e"] != e["e"] and not (x["e"] in ("Auc", "AucEnd") and e["e"] in ("Auc", "AucEnd")):
+    grp = lambda k: "Auc" if k in ("Auc", "AucEnd") else "Err" if k in ("Err", "ErrEnd") else "Pair" if k in ("Pair", "PairRow") else k
+    if grp(x["e"]) != grp(e["e"]):       # a Pair goes with its PairRows (TLC counts them), AucEnd with its Auc, ErrEnd with its Err
         return False
     k = x["e"]
     if k == "Pred":
         start, labs, _ = cm[id(x)]
+        if e["fin"] == 1 and e["label"] - cm[id(e)][0] == e["am"] and e["label"] in cm[id(e)][1]:
+            return cm[id(x)][2].get("mode") == "exact"        # rejected by the exact oracle only: the other exact blocks may be too
         return x["label"] not in labs or x["label"] - start != x["am"] or x["fin"] != 1
     if k == "EndPred":
         return (x.get("rows") != x.get("n")) == (e.get("rows") != e.get("n"))
-    if k == "Pair":
+    if k in ("Pair", "PairRow"):
         return x["kind"] == e["kind"]
+    if k == "Reuse":
+        return x.get("var") == e.get("var")
+    if k == "PFeat":
+        return bool(x.get("var")) == bool(e.get("var"))
     return True
+
+
+# ---------------------------------------------------------------- the stratified plan of round 3 (input classes inside the quantifier)
+def _plan(seed, rounds):
+    """plan lines 'id seed fam K d start order ntmode shiftexp unitexp grid nproc hist sep dup refit n_1..n_K' (see harness/c08_drv.c)"""
+    import random
+    rng = random.Random(seed * 7 + 3)
+    out, pid = [], [1000]
+
+    def add(fam, K, d, start, cnt, order=0, ntmode=0, shiftexp=0, unitexp=0, grid=0, nproc=1, hist=0, sep=1, dup=0, refit=0, sd=None, fixed=False):
+        assert len(cnt) == K and 2 <= K <= 5 and 2 <= d <= 6 and all(4 <= c <= 40 for c in cnt) and sum(cnt) - K >= d
+        # "well separated => no error" is promised for FRESH objects only when the pooled covariance is estimated with some margin:
+        # with n - K close to d its smallest eigenvalue is far below the true variance and a fresh object's noise along that direction
+        # is amplified beyond the class distance (not a defect of the code).  Families that need n - K < 4d predict their training
+        # objects only (ntmode 2: there |score noise| <= M sqrt(n) < M^2/2 for centres >= 12 sigma apart); the others get >= 4d.
+        if sep and ntmode != 2:
+            cnt = list(cnt)
+            while sum(cnt) - K < 4 * d:
+                if fixed:
+                    d -= 1
+                else:
+                    cnt[cnt.index(min(cnt))] += 1
+            assert d >= 2
+        out.append("%d %d %s %d %d %d %d %d %d %d %d %d %d %d %d %d %s" % (pid[0], sd if sd is not None else seed + pid[0], fam, K, d, start, order, ntmode, shiftexp, unitexp, grid,
+                                                                          nproc, hist, sep, dup, refit, " ".join(map(str, cnt))))
+        pid[0] += 1
+    for rnd in range(rounds):
+        v = rnd > 0      # later rounds (thorough tier) vary shapes at random inside each family
+
+        def Kd(K, d):
+            return (rng.randint(2, 5), rng.randint(2, 6)) if v else (K, d)
+
+        def sizes(K, lo=4, hi=40):
+            return [rng.randint(lo, hi) for _ in range(K)]
+        # K1 shape relations
+        for K, d in ((3, 3), (2, 6), (5, 5), (3, 4)):
+            K, d = Kd(K, d)
+            d = max(d, 3)
+            add("k1-nk=d+1", K, d, rng.randint(0, 1), [d + 1] * K, ntmode=2)
+        for K, d in ((2, 6), (2, 5), (3, 6)):
+            add("k1-barely", K, d, rng.randint(0, 1), [4] * K if not v else [max(4, (d + K - 1) // K + 1)] * K, ntmode=2)
+        for K, d, st in ((2, 2, 0), (4, 5, 0), (3, 3, 1)):
+            K, d = Kd(K, d)
+            add("k1-single-test", K, d, st, sizes(K, 8, 20), ntmode=1)
+        # K2 block-size boundaries of the unrolled products (4) and n around 64
+        for cnt in ([32, 32], [31, 32], [32, 33], [8, 8, 16, 32], [4, 5, 7, 9], [16, 16, 16, 16], [33, 31, 4], [12, 13, 15, 24]):
+            if v:
+                cnt = [rng.choice([4, 5, 7, 8, 9, 12, 15, 16, 17, 31, 32, 33, 36, 40]) for _ in range(rng.randint(2, 5))]
+            add("k2-block", len(cnt), rng.randint(2, 6), rng.randint(0, 1), cnt, fixed=True)
+        # K3 common offsets, K4 units, and both
+        for se, K, d, st in ((3, 2, 2, 0), (3, 4, 5, 1), (5, 3, 3, 0), (5, 2, 6, 1), (6, 3, 4, 1), (6, 5, 2, 0)):
+            K, d = Kd(K, d)
+            add("k3-offset", K, d, st, sizes(K, 5, 16), shiftexp=se)
+        for ue, K, d, st in ((-20, 2, 5, 1), (-10, 3, 3, 0), (10, 4, 2, 1), (20, 3, 3, 0)):
+            K, d = Kd(K, d)
+            add("k4-unit", K, d, st, sizes(K, 5, 24), unitexp=ue)
+        for se, ue, K, d, st in ((5, -20, 3, 3, 0), (6, 10, 2, 4, 1)):
+            K, d = Kd(K, d)
+            add("k3k4-offset-unit", K, d, st, sizes(K, 5, 16), shiftexp=se, unitexp=ue)
+        # K5 non-representable grids
+        for g, K, d, st in ((10, 3, 3, 0), (10, 2, 6, 1), (3, 4, 2, 1)):
+            K, d = Kd(K, d)
+            add("k5-grid", K, d, st, sizes(K, 6, 30), grid=g)
+        # K6 processor counts
+        for np_, K, d, st in ((2, 3, 3, 0), (3, 2, 4, 1), (5, 4, 3, 0), (16, 5, 2, 1)):
+            K, d = Kd(K, d)
+            add("k6-nproc", K, d, st, sizes(K, 6, 20), nproc=np_)
+        # K7 histories in one process
+        for K, d, st in ((3, 3, 0), (2, 5, 1), (5, 2, 1), (4, 4, 0)):
+            K, d = Kd(K, d)
+            add("k7-hist", K, d, st, sizes(K, 6, 16), hist=1)
+        # K8 duplicate rows
+        for K, d, st in ((2, 3, 0), (3, 2, 1)):
+            K, d = Kd(K, d)
+            add("k8-dup", K, d, st, sizes(K, 16, 30), dup=1)
+        # K10 label order / balance alphabets
+        add("k10-desc", 3, 3, 0, sizes(3, 6, 20), order=1)
+        add("k10-desc", 4, 2, 1, sizes(4, 6, 20), order=1)
+        add("k10-first-in-last", 3, 4, 0, sizes(3, 6, 20), order=2)
+        add("k10-first-in-last", 5, 3, 1, sizes(5, 6, 20), order=2)
+        add("k10-4v40", 2, rng.randint(2, 6) if v else 3, 1, [4, 40], order=2, fixed=True)
+        add("k10-4v40", 2, rng.randint(2, 6) if v else 2, 0, [40, 4], order=1, fixed=True)
+        add("k10-5x6", 5, 6, 1, [4, 40, 4, 40, 12] if not v else sizes(5), order=2)
+        add("k10-5x6", 5, 6, 0, sizes(5, 8, 16), order=3)
+        # overlapping classes (arg-max, label, prior, mean clauses on objects that are NOT all classified correctly; LDAError with errors)
+        for K, d, st in ((2, 2, 0), (3, 3, 1), (4, 4, 0), (5, 6, 1)):
+            K, d = Kd(K, d)
+            add("overlap", K, d, st, sizes(K, 10, 30), sep=0)
+        # LDA() into a used model object (outside the statement)
+        for K, d, st in ((2, 2, 0), (3, 3, 1)):
+            add("refit", K, d, st, sizes(K, 6, 16), refit=1)
+    return out
+
+
+def _classes(e, preds_tie):
+    """input-class tags of one executed case, measured on its Case event (INPUT-CLASSES.md)"""
+    t = []
+    lab, d, K = e["lab"], e["d"], e["K"]
+    cnt = {}
+    for v in lab:
+        cnt[v] = cnt.get(v, 0) + 1
+    sz = sorted(cnt.values())
+    n = len(lab)
+    exact = e["mode"] == "exact"
+    rc = e.get("rc", {})
+    if exact:
+        t.append("K1:exact n<=7 (classes of 1..5 objects)")
+        if rc.get("off"):
+            t.append("K3:exact case at offset %g" % rc["off"])
+        if rc.get("mul", 1) > 1:
+            t.append("K4:exact case in units 2^%d" % (rc["mul"].bit_length() - 1))
+        if rc.get("den", 1) in (1024, 1048576):
+            t.append("K4:exact case in units 2^-%d" % (rc["den"].bit_length() - 1))
+        if rc.get("den", 1) in (3, 10):
+            t.append("K5:exact case on the grid 1/%d" % rc["den"])
+        if preds_tie:
+            t.append("K8:exact score tie between two classes (stored scores bitwise equal)")
+    else:
+        if sz[0] == d + 1:
+            t.append("K1:nk=d+1")
+        if n - K == d:
+            t.append("K1:n-K=d (pooled covariance barely non-singular)")
+        elif sz[0] <= d:
+            t.append("K1:nk<=d<n-K (a class alone is singular)")
+        if e["nt"] == 1:
+            t.append("K1:single test object")
+        if sz[0] > d + 1:
+            t.append("K1:tall")
+        if any(c % 4 == 0 for c in sz):
+            t.append("K2:nk=4k")
+        if any(c % 4 in (1, 3) for c in sz):
+            t.append("K2:nk=4k+-1")
+        if 32 in sz:
+            t.append("K2:nk=32")
+        if 31 in sz or 33 in sz:
+            t.append("K2:nk=32+-1")
+        if n == 64:
+            t.append("K2:n=64")
+        if n in (63, 65):
+            t.append("K2:n=64+-1")
+        if e["shift"] >= 1000:
+            t.append("K3:offset>=1e%d spreads" % (len(str(e["shift"])) - 1))
+        if e["unit"]:
+            t.append("K4:unit=2^%d" % e["unit"])
+        if e["fam"].startswith("k5"):
+            t.append("K5:grid")
+        if e["nproc"] > 1:
+            t.append("K6:nproc=%d (no MT kernel reached on this tree)" % e["nproc"])
+        if e["hist"]:
+            t.append("K7:history fit-A,fit-B(other shape),fit-A'(other data),free,fit-A into B's outputs")
+        t.append("K7:outputs reused (same size / larger / 1x1 / other test set in between)")
+        if e["fam"].startswith("k8"):
+            t.append("K8:duplicate rows")
+        if e["sep"] == 0:
+            t.append("overlapping classes (predictions with errors)")
+        if sz[0] <= 4 and sz[-1] >= 40:
+            t.append("K10:unbalanced 4 vs 40")
+        if K == 5 and d == 6:
+            t.append("K10:5 classes x 6 features")
+    t.append("K10:1-based" if e["start"] == 1 else "K10:0-based")
+    if lab[0] == max(lab):
+        t.append("K10:first object in the last class")
+    if all(lab[i] >= lab[i + 1] for i in range(n - 1)):
+        t.append("K10:labels non-increasing")
+    elif any(lab[i] > lab[i + 1] for i in range(n - 1)):
+        t.append("K10:labels unsorted")
+    return t
+
+
+def _account(ctx, events, what):
+    """ctx.case / ctx.cls for every executed case of a recording"""
+    tie_blocks = set()
+    cur = None
+    for e in events:
+        if e["e"] == "Case":
+            cur = e
+        elif e["e"] == "Pred" and cur is not None and e["fin"] == 1:
+            if not e["sc"]:
+                continue
+            top = max(tuple(s) for s in e["sc"])
+            if sum(1 for s in e["sc"] if tuple(s) == top) > 1:
+                tie_blocks.add(id(cur))
+    areuse = 0
+    for e in events:
+        if e["e"] == "Hist" and e.get("areuse"):
+            areuse += 1
+        if e["e"] != "Case" or e["sub"]:
+            continue
+        rc = e.get("rc", {})
+        if e["mode"] == "exact":
+            ident = rc == {"off": 0, "mul": 1, "den": 1}
+            ctx.case(("exact", tuple(e["lab"]), e["d"], tuple(map(tuple, e["X"][:2])), rc.get("off"), rc.get("mul"), rc.get("den")), e["start"] == 1 or not e["balanced"] or not ident)
+        else:
+            cnt = {}
+            for v in e["lab"]:
+                cnt[v] = cnt.get(v, 0) + 1
+            ctx.case((what, e["fam"], e["K"], e["d"], e["start"], e["balanced"], tuple(sorted(cnt.items())), e["shift"], e["unit"], e["nproc"], e["nt"]), True)
+        for t in _classes(e, id(e) in tie_blocks):
+            ctx.cls(t)
+    if areuse:
+        ctx.cls("K7:model allocated at the address of a freed one", areuse)
+
+
+def _selftests(ctx, ev_exact, ev_plan):
+    """binding self-tests: corrupt one recorded field -> TLC must reject (one per event kind the judgement rests on)"""
+    blk = next((b for b in tlc.split_blocks(ev_exact) if any(e["e"] == "Pred" for e in b) and any(e["e"] == "Mu" for e in b)
+                and b[1].get("rc") == {"off": 0, "mul": 1, "den": 1}), None)
+    if blk is None:
+        raise InfraError("no exact block for the binding self-tests")
+
+    def corrupt_mu(ev):
+        for e in ev:
+            if e["e"] == "Mu":
+                e["num"] += 1
+                return True
+        return False
+    trace.binding_selftest(ctx, "TraceLda", "Trace_Lda_prop.cfg", blk, corrupt_mu, "binding_mu")
+
+    def corrupt_pred(ev):
+        labs = sorted(set(ev[1]["lab"]))
+        for e in ev:
+            if e["e"] == "Pred" and len(set(tuple(s) for s in e["sc"])) == len(e["sc"]):
+                e["label"] = labs[0] if e["label"] != labs[0] else labs[1]
+                return True
+        return False
+    trace.binding_selftest(ctx, "TraceLda", "Trace_Lda_prop.cfg", blk, corrupt_pred, "binding_pred")
+
+    # the exact oracle: swap the stored codes of the two best rows of a decisive object together with the label - the stored
+    # arg-max still agrees with the label, only TLC's exact discriminant can object
+    def corrupt_oracle(ev):
+        start = ev[1]["start"]
+        labs = sorted(set(ev[1]["lab"]))
+        sizes = {v: ev[1]["lab"].count(v) for v in labs}
+        for e in ev:
+            if e["e"] != "Pred" or len(set(tuple(s) for s in e["sc"])) != len(e["sc"]):
+                continue
+            order = sorted(range(len(e["sc"])), key=lambda k: tuple(e["sc"][k]), reverse=True)
+            a, b = order[0], order[1]
+            if sizes.get(a + start) != sizes.get(b + start):
+                continue
+            e["sc"][a], e["sc"][b] = e["sc"][b], e["sc"][a]
+            e["label"], e["am"] = b + start, b
+            return True
+        return False
+    oblk = next((b for b in tlc.split_blocks(ev_exact) if b[1].get("balanced") == 1 and b[1].get("rc") == {"off": 0, "mul": 1, "den": 1}
+                 and b[1].get("d") == 2 and any(e["e"] == "Pred" for e in b)), None)
+    if oblk is None:
+        raise InfraError("no balanced exact block for the oracle self-test")
+    trace.binding_selftest(ctx, "TraceLda", "Trace_Lda_prop.cfg", oblk, corrupt_oracle, "binding_exact_oracle")
+
+    # one clean block per new event kind: the appended-columns finding (PFeat into a non-empty output) and crashed probes must not
+    # mask the corruption, and the uncorrupted blocks must be accepted as they are
+    def first_block(kind):
+        for b in tlc.split_blocks(ev_plan):
+            if any(e["e"] == kind for e in b) and all(e.get("kf", 0) <= KFMAX for e in b) and not any(e["e"] == "Crash" for e in b):
+                return [e for e in b if not (e["e"] == "PFeat" and e.get("var"))]
+        raise InfraError("no recorded block with a %s event for the binding self-test" % kind)
+
+    def bump(kind, field, val):
+        def f(ev):
+            for e in ev:
+                if e["e"] == kind:
+                    if isinstance(e[field], list):
+                        e[field][0] = val
+                    else:
+                        e[field] = val
+                    return True
+            return False
+        return f
+    tests = [("PairRow", "e9", 1500000000, "binding_pairrow"), ("Hist", "err", 5000, "binding_hist"), ("Reuse", "same", 0, "binding_reuse"),
+             ("Auc", "err", 5000, "binding_auc"), ("Err", "acc", 123456, "binding_lderror"), ("PFeat", "cols", 1, "binding_pfeat"),
+             ("FTab", "merr", 50000, "binding_ftab"), ("MnPdf", "err", 50000, "binding_mnpdf")]
+    blocks = {k: first_block(k) for k, _, _, _ in tests}
+    clean = []
+    for k in ("PairRow", "Hist", "Err"):
+        clean += blocks[k]
+    ok, n, r = tlc.validate_trace("TraceLda", "Trace_Lda_prop.cfg", clean)
+    if not ok:
+        if ctx.violations or ctx.extras.keys() - {"LDA:pfeatures", "LDA:history:refit-into-used-model"}:
+            ctx.note("binding self-tests of the round-3 event kinds skipped: the recording itself is rejected (see the findings above)")
+            return
+        raise InfraError("binding self-test: the uncorrupted blocks are not accepted (stopped at event %d %s)" % (n, json.dumps(clean[n])[:200] if n < len(clean) else ""))
+    with ThreadPoolExecutor(4) as ex:
+        list(ex.map(lambda t: trace.binding_selftest(ctx, "TraceLda", "Trace_Lda_prop.cfg", blocks[t[0]], bump(t[0], t[1], t[2]), t[3]), tests))
 
 
 def run(ctx):
     ctx.assumptions += [
-        "TLC enumerates label vectors only up to the stated length/class bounds; feature data of the exact cases are the integer patterns of Lda.tla",
-        "floating-point residuals (score vs documented discriminant, score-difference deviations, class averages of real-valued data) are computed by the harness in double/long double and logged as integers in units of 1e-12; TLC checks the bounds and the cross-event logic",
+        "TLC enumerates label vectors only up to the stated length/class bounds; feature data of the exact cases are the integer patterns of Lda.tla (and their mirror-symmetric tie cases)",
+        "the exact discriminant oracle compares classes of EQUAL size only (the logarithms of the priors cancel); recoded exact cases are judged on the integer coordinates, which the model's theorems AffineSgn / MeanEquivariant license, with a margin of one discriminant unit where offsets or the pseudo-inverse branch are involved",
+        "floating-point residuals (score vs documented discriminant, score-difference deviations, class averages of real-valued data) are computed by the harness in double/long double and logged as integers in units of 1e-12 (1e-9 per class pair in offset blocks); TLC checks the bounds and the cross-event logic",
         "stored scores are logged through an order-preserving 3-limb code of the IEEE bits; TLC itself decides the arg-max set",
-        "invariance bound: 1e-7 relative, relaxed to 1e-8 per unit Frobenius condition number of the covariance LDA() inverts; pairs with condition number > 1e5 are outside 'non-singular' and are dropped and counted",
+        "invariance bound: 1e-7 relative, relaxed to 1e-8 per unit Frobenius condition number of the covariance LDA() inverts; pairs with condition number > 1e5 are outside 'non-singular' and are dropped and counted; offset blocks add 32 u d r^2 absolute per score difference",
         "every fit/prediction runs in a child process under ASan/UBSan; a sanitizer report or signal is attributed to that case",
     ]
     q = ctx.quick
-    # ---- (M) the model, with the mapping the property needs
-    cfg = "MC_Lda_quick.cfg" if q else "MC_Lda_thorough.cfg"
-    r = tlc.run("Lda", cfg, workers=WORKERS, timeout=1500)
-    ctx.add_tlc(r, "mc_lda")
+    # ---- (M) the model with the mapping the property needs, (M') the mapping of the pinned tree (the model must exhibit the defect), and the
+    #      round-3 theorems; every run is dominated by single-threaded initial-state enumeration, so they run side by side
+    runs = [("mc_lda", "MC_Lda_quick.cfg" if q else "MC_Lda_thorough.cfg", 2400),
+            ("mc_lda_pluspos", "MC_Lda_pluspos.cfg", 900),
+            ("mc_lda_pluspos_every", "MC_Lda_pluspos_every_quick.cfg" if q else "MC_Lda_pluspos_every.cfg", 900),
+            ("mc_lda_affine", "MC_Lda_affine_quick.cfg" if q else "MC_Lda_affine_thorough.cfg", 2400)]
+    if q:
+        runs.append(("mc_lda_disc", "MC_Lda_disc_quick.cfg", 900))
+    else:
+        runs.append(("mc_lda_k4", "MC_Lda_k4_thorough.cfg", 2400))       # second scope: four classes, length <= 6
+    with ThreadPoolExecutor(min(len(runs), max(2, WORKERS))) as ex:
+        res = list(ex.map(lambda a: tlc.run("Lda", a[1], workers=1, timeout=a[2]), runs))
+    R = {}
+    for (label, cfg, _), r in zip(runs, res):
+        ctx.add_tlc(r, label)
+        R[label] = r
+    r = R["mc_lda"]
     if not r.ok:
         raise InfraError("Lda.tla: invariant %s fails in the model itself:\n%s" % (r.violation, r.trace_text[:1500]))
+    for label in ("mc_lda_affine", "mc_lda_disc"):
+        if label in R and not R[label].ok:
+            raise InfraError("Lda.tla (%s): theorem %s fails in the model itself:\n%s" % (label, R[label].violation, R[label].trace_text[:1500]))
+        if label in R and R[label].distinct < 100:
+            raise InfraError("Lda.tla (%s): only %d states" % (label, R[label].distinct))
     cases = sorted(r.emits, key=lambda c: (len(c["lab"]), c["lab"], json.dumps(c["X"])))      # TLC's print order depends on worker scheduling
     if not cases or r.distinct != len(cases):
         raise InfraError("Lda.tla GEN: %d states but %d emitted cases" % (r.distinct, len(cases)))
-    ctx.note("model: %d label vectors x feature patterns; bookkeeping, prior and mean invariants hold for LabelMap = plus_start" % r.distinct)
-    # ---- (M') the mapping of the pinned tree: the model must exhibit the defect
-    r2 = tlc.run("Lda", "MC_Lda_pluspos.cfg", workers=2, timeout=600)
-    ctx.add_tlc(r2, "mc_lda_pluspos")
+    if "mc_lda_k4" in R:
+        r4 = R["mc_lda_k4"]
+        if not r4.ok:
+            raise InfraError("Lda.tla (four classes): invariant %s fails in the model itself:\n%s" % (r4.violation, r4.trace_text[:1500]))
+        if r4.distinct != len(r4.emits):
+            raise InfraError("Lda.tla GEN (four classes): %d states but %d emitted cases" % (r4.distinct, len(r4.emits)))
+        k4 = sorted((c for c in r4.emits if c["K"] == 4), key=lambda c: (len(c["lab"]), c["lab"], json.dumps(c["X"])))
+        if not k4:
+            raise InfraError("Lda.tla GEN (four classes) emitted no four-class case")
+        ctx.note("model, second scope: %d states, %d of them with four classes (replayed too)" % (r4.distinct, len(k4)))
+        cases += k4
+    nmirror = sum(1 for c in cases if c.get("mirror"))
+    if nmirror == 0:
+        raise InfraError("Lda.tla GEN emitted no mirror-symmetric (tie) case")
+    ctx.note("model: %d cases = label vectors x feature patterns (%d mirror-symmetric); bookkeeping, prior, mean invariants hold for LabelMap = plus_start; "
+             "discriminant theorems on %d, affine / permutation theorems on %d states" % (len(cases), nmirror, R.get("mc_lda_disc", r).distinct, R["mc_lda_affine"].distinct))
+    r2, r3 = R["mc_lda_pluspos"], R["mc_lda_pluspos_every"]
     if r2.ok:
         raise InfraError("Lda.tla with LabelMap = plus_pos no longer violates PredictionIsALabel: the model lost its bite")
     ctx.steps["mc_lda_pluspos"]["violated"] = r2.violation
-    r3 = tlc.run("Lda", "MC_Lda_pluspos_every.cfg", workers=WORKERS, timeout=900)
-    ctx.add_tlc(r3, "mc_lda_pluspos_every")
     if not r3.ok:
         raise InfraError("Lda.tla: %s fails: the plus_pos mapping is not wrong for every 1-based label vector / not right for every 0-based one\n%s" % (r3.violation, r3.trace_text[:1200]))
-    # ---- (C) replay of every enumerated case
+    # ---- (C) replay of every enumerated case (identity), and of a stratified part under the recoding TLC assigned
     lib = build.build_lib("san")
     exe = build.build_harness("c08", ["c08_drv.c"], lib)
     rd = tlc.rundir()
+    ident = {"off": 0, "mul": 1, "den": 1}
     try:
         P = WORKERS
+        lines = [(i, c, ident) for i, c in enumerate(cases)]
+        stride = 5 if q else 1
+        lines += [(len(cases) + i, c, c["rc"]) for i, c in enumerate(cases) if c.get("mirror") or i % stride == 0]
+        by_id = {i: (c, rc) for i, c, rc in lines}
         jobs = []
         for p in range(P):
             fn = os.path.join(rd, "cases%d.txt" % p)
             with open(fn, "w") as f:
-                for i, c in enumerate(cases):
-                    if i % P == p:
-                        f.write(_case_line(i, c))
+                for k, (i, c, rc) in enumerate(lines):
+                    if k % P == p:
+                        f.write(_exact_line(i, c, rc))
             jobs.append([os.path.join(rd, "exact%d.ndjson" % p), "exact", fn])
         ev_exact, san1 = _run_harness(exe, jobs, "exact")
         nex = sum(1 for e in ev_exact if e["e"] == "Case")
-        if nex != len(cases):
-            raise InfraError("replay: %d cases sent, %d reported" % (len(cases), nex))
-        # ---- (C) validate: seeded separable data sets
+        if nex != len(lines):
+            raise InfraError("replay: %d cases sent, %d reported" % (len(lines), nex))
+        # ---- (C) validate: seeded separable data sets (base generator) and the stratified families
         ncase = 48 if q else 960
         per = (ncase + P - 1) // P
         jobs = [[os.path.join(rd, "ledger%d.ndjson" % p), "ledger", ctx.seed, p * per, min(per, ncase - p * per), SEP] for p in range(P) if p * per < ncase]
         ev_led, san2 = _run_harness(exe, jobs, "ledger")
+        plan = _plan(ctx.seed, 1 if q else 16)
+        jobs = []
+        for p in range(P):
+            fn = os.path.join(rd, "plan%d.txt" % p)
+            open(fn, "w").write("".join(l + "\n" for k, l in enumerate(plan) if k % P == p))
+            jobs.append([os.path.join(rd, "plan%d.ndjson" % p), "plan", fn])
+        # no quarantine: a model allocated after a free may get the freed one's address (K7); measured, not assumed
+        ev_plan, san3 = _run_harness(exe, jobs, "plan", asan_extra="quarantine_size_mb=0:thread_local_quarantine_size_kb=0")
+        plan_by_id = {int(l.split()[0]): l for l in plan}
+        nplan = sum(1 for e in ev_plan if e["e"] == "Case" and not e["sub"])
+        if nplan != len(plan):
+            raise InfraError("plan: %d cases sent, %d reported" % (len(plan), nplan))
         # ---- accounting
-        for e in ev_exact:
-            if e["e"] == "Case":
-                ctx.case(("exact", tuple(e["lab"]), e["d"]), e["start"] == 1 or not e["balanced"])
-        for e in ev_led:
-            if e["e"] == "Case" and not e["sub"]:
-                cnt = {}
-                for v in e["lab"]:
-                    cnt[v] = cnt.get(v, 0) + 1
-                ctx.case(("ledger", e["K"], e["d"], e["start"], e["balanced"], tuple(sorted(cnt.items()))), True)
+        _account(ctx, ev_exact, "exact")
+        _account(ctx, ev_led, "ledger")
+        _account(ctx, ev_plan, "plan")
         for c in cases[:1] + cases[len(cases) // 2:len(cases) // 2 + 1]:
             ctx.sample(dict(c, what="exact case emitted by TLC"))
-        for e in ev_led:
+        for e in ev_led + ev_plan:
             if e["e"] == "Pair":
                 ctx.sample(dict(e, what="ledger invariance pair"), 5)
         ctx.cov["rule"] = ("exact: every label vector of length <= %d over <= 3 classes (both numberings, every class occupied) x integer feature pattern with non-singular total "
-                           "and within-class covariance, enumerated by TLC and replayed; non-trivial = 1-based or unbalanced.  ledger: seeded data sets keyed by "
-                           "(classes, features, numbering, balanced, class sizes); all non-trivial" % (6 if q else 7))
+                           "and within-class covariance, plus mirror-symmetric tie cases, enumerated by TLC and replayed as they are and (every %s case) under the recoding TLC "
+                           "assigned; non-trivial = 1-based or unbalanced or recoded.  ledger / plan: seeded data sets keyed by (family, classes, features, numbering, balanced, "
+                           "class sizes, offset, unit, nproc, test-set size); all non-trivial" % (6 if q else 7, "5th" if q else ""))
         ctx.cov["exhaustive"] = False
         ctx.steps["ledger_cases"] = sum(1 for e in ev_led if e["e"] == "Case" and not e["sub"])
+        ctx.steps["plan_cases"] = nplan
         ctx.steps["exact_cases"] = nex
-        crashes = [e for e in ev_exact + ev_led if e["e"] == "Crash"]
+        allev = ev_exact + ev_led + ev_plan
+        crashes = [e for e in allev if e["e"] == "Crash"]
         ctx.steps["child_crashes"] = len(crashes)
+        ctx.steps["score_tie_objects"] = sum(1 for e in ev_exact if e["e"] == "Pred" and e["fin"] == 1 and len(e["sc"]) >= 2 and sorted(map(tuple, e["sc"]))[-1] == sorted(map(tuple, e["sc"]))[-2])
+        ctx.steps["pinv_branch_models"] = sum(1 for e in allev if e["e"] == "Disc" and e.get("pinv"))
         # (V) which mapping does the code implement?
-        cm_all = _ctxmap(ev_exact + ev_led)
+        cm_all = _ctxmap(allev)
         pluspos = any(e["e"] == "Crash" and e.get("stage") == "predict" and e.get("start") == 1 for e in crashes) or \
-            any(e["e"] == "Pred" and cm_all[id(e)][0] == 1 and e["label"] == e["am"] - 1 for e in ev_exact + ev_led)
+            any(e["e"] == "Pred" and cm_all[id(e)][0] == 1 and e["label"] == e["am"] - 1 for e in allev)
         ctx.steps["implemented_label_map"] = "plus_pos" if pluspos else "plus_start"
-        ctx.note("conformance: %d exact + %d ledger cases, %d child crashes; implemented label map: %s" % (nex, ctx.steps["ledger_cases"], len(crashes), ctx.steps["implemented_label_map"]))
+        ctx.note("conformance: %d exact (%d recoded) + %d ledger + %d plan cases, %d child crashes; implemented label map: %s" % (
+            nex, nex - len(cases), ctx.steps["ledger_cases"], nplan, len(crashes), ctx.steps["implemented_label_map"]))
 
         def replay_exact(case, e):
-            return dict(kind="exact", lab=case["lab"], X=case["X"], event=e)
+            c, rc = by_id[case["id"]]
+            return dict(kind="exact", lab=c["lab"], X=c["X"], T=c.get("T", []), rc=rc, event=e)
 
         def replay_ledger(case, e):
             return dict(kind="ledger", seed=ctx.seed, idx=case["id"], sep=SEP, event=e)
-        _validate(ctx, ev_exact, san1, "trace_exact", replay_exact)
-        _validate(ctx, ev_led, san2, "trace_ledger", replay_ledger)
-        # vacuity: the parts of the property that need events must have produced them
-        kinds = set(e["e"] for e in ev_exact + ev_led)
-        need = {"Labels", "Prior", "PriorSum", "Mu", "MuL"}
+
+        def replay_plan(case, e):
+            return dict(kind="plan", line=plan_by_id[case["id"]], event=e)
+        # the recordings are validated side by side (each TLC run is single-threaded; blocks are independent)
+        with ThreadPoolExecutor(3) as ex:
+            futs = [ex.submit(_validate, ctx, ev_exact, san1, "trace_exact", replay_exact, 2 if q else 4),
+                    ex.submit(_validate, ctx, ev_led, san2, "trace_ledger", replay_ledger, 1 if q else 2),
+                    ex.submit(_validate, ctx, ev_plan, san3, "trace_plan", replay_plan, 1 if q else 2)]
+            for f in futs:
+                f.result()
+        # vacuity: the parts of the property that need events must have produced them, every new harness path really emitted
+        # (when the library already failed the property, missing events are a consequence of children that died, not an infrastructure problem)
+        if ctx.violations:
+            ctx.note("vacuity checks and binding self-tests skipped: violations were recorded, children may have died before emitting")
+            return
+        kinds = set(e["e"] for e in allev)
+        need = {"Labels", "Prior", "PriorSum", "Mu", "MuL", "Pred", "Disc", "EndPred", "Reuse", "Pair", "PairRow", "Auc", "AucEnd", "Hist", "PFeat", "Err", "ErrEnd", "FTab", "MnPdf"}
         if not need <= kinds:
             raise InfraError("harness stopped emitting %s" % sorted(need - kinds))
-        # binding self-test: corrupt one stored mean / one predicted label -> must be rejected
-        blk = next((b for b in tlc.split_blocks(ev_exact) if any(e["e"] == "Pred" for e in b) and any(e["e"] == "Mu" for e in b)), None)
-        if blk is not None:
-            def corrupt_mu(ev):
-                for e in ev:
-                    if e["e"] == "Mu":
-                        e["num"] += 1
-                        return True
-                return False
-            trace.binding_selftest(ctx, "TraceLda", "Trace_Lda_prop.cfg", blk, corrupt_mu, "binding_mu")
-
-            def corrupt_pred(ev):
-                labs = sorted(set(ev[1]["lab"]))
-                for e in ev:
-                    if e["e"] == "Pred" and len(set(tuple(s) for s in e["sc"])) == len(e["sc"]):
-                        e["label"] = labs[0] if e["label"] != labs[0] else labs[1]
-                        return True
-                return False
-            trace.binding_selftest(ctx, "TraceLda", "Trace_Lda_prop.cfg", blk, corrupt_pred, "binding_pred")
+        if not any(e["e"] == "Refit" or (e["e"] == "Crash" and e.get("stage") == "refit") for e in ev_plan):
+            raise InfraError("the refit-into-used-model probe produced neither a Refit event nor a crash")
+        if not any(e["e"] == "Auc" and e.get("src") == "pred" for e in allev):
+            raise InfraError("no ROC summary was computed from real predictions")
+        if set(e["var"] for e in allev if e["e"] == "Reuse") != {0, 1, 2, 3}:
+            raise InfraError("not every reuse variant was exercised")
+        if ctx.steps["score_tie_objects"] == 0:
+            raise InfraError("the mirror-symmetric cases produced no exact score tie in the library's stored scores")
+        for t in ("K1:nk=d+1", "K1:single test object", "K2:nk=32", "K2:n=64", "K3:offset>=1e6 spreads", "K4:unit=2^20", "K4:unit=2^-20", "K5:grid", "K8:duplicate rows",
+                  "K10:labels non-increasing", "K10:unbalanced 4 vs 40", "K10:5 classes x 6 features", "K10:first object in the last class"):
+            if not ctx.classes.get(t):
+                raise InfraError("input class %s was not emitted" % t)
+        _selftests(ctx, ev_exact, ev_plan)
     finally:
         shutil.rmtree(rd, ignore_errors=True)
 
@@ -286,15 +775,21 @@ def replay(ctx, body):
     exe = build.build_harness("c08", ["c08_drv.c"], lib)
     rd = tlc.rundir()
     try:
+        asan = ""
         if case.get("kind") == "exact":
             fn = os.path.join(rd, "case.txt")
-            open(fn, "w").write(_case_line(0, case))
+            open(fn, "w").write(_exact_line(0, case, case.get("rc") or {"off": 0, "mul": 1, "den": 1}))
             jobs = [[os.path.join(rd, "r.ndjson"), "exact", fn]]
         elif case.get("kind") == "ledger":
             jobs = [[os.path.join(rd, "r.ndjson"), "ledger", case["seed"], case["idx"], 1, case.get("sep", SEP)]]
+        elif case.get("kind") == "plan":
+            fn = os.path.join(rd, "plan.txt")
+            open(fn, "w").write(case["line"] + "\n")
+            jobs = [[os.path.join(rd, "r.ndjson"), "plan", fn]]
+            asan = "quarantine_size_mb=0:thread_local_quarantine_size_kb=0"
         else:
             return run(ctx)
-        ev, san = _run_harness(exe, jobs, "replay")
+        ev, san = _run_harness(exe, jobs, "replay", asan_extra=asan)
         for e in ev:
             if e["e"] == "Case":
                 ctx.case(("replay", e["id"], e["sub"]))
